@@ -1,5 +1,5 @@
 From Coq Require Import Permutation.
-From Verif Require Import Lib.Base Gen.MuxOrder Abci.Mux Abci.MuxProofs Gen.MuxSorts Abci.MapOrder Abci.MapOrderProofs Gen.MuxMapSites Abci.MapSites Abci.LocalOracle.
+From Verif Require Import Lib.Base Gen.MuxOrder Abci.Mux Abci.MuxProofs Gen.MuxSorts Abci.MapOrder Abci.MapOrderProofs Gen.MuxMapSites Abci.MapSites Abci.LocalOracle Abci.ParamsCache.
 
 (* C01 -- replicas compute identical state and results for identical blocks.
    All statements are about the generic multiplexer model Verif.Abci.Mux, for every
@@ -327,3 +327,32 @@ Theorem aborted_round_without_reset_refuted :
     reference toy (n_cfg toy n) (n_apps toy n) (n_committed toy n) b <> None.
 Proof. exact MuxProofs.aborted_round_without_reset_refuted. Qed.
 Print Assumptions aborted_round_without_reset_refuted.
+
+(* ---- the cached consensus parameters ---- *)
+(* After any history of commits and restarts the cached consensus parameters (blockParams) are
+   those of the committed state -- given that doCommit refreshes them after the state root
+   advanced (read from state.go by gen muxorder). *)
+Theorem params_cache_is_function_of_committed_state :
+  forall (state params : Type) (params_of : state -> params) (s0 : state) (ops : list (pop state)),
+    cache_fresh state params params_of (fold_left (pstep state params params_of) ops (init state params params_of s0)).
+Proof. exact ParamsCache.params_cache_is_function_of_committed_state. Qed.
+Print Assumptions params_cache_is_function_of_committed_state.
+
+Theorem replicas_hold_same_params :
+  forall (state params : Type) (params_of : state -> params) (s0 : state) (ops1 ops2 : list (pop state)),
+    p_committed state params (fold_left (pstep state params params_of) ops1 (init state params params_of s0))
+    = p_committed state params (fold_left (pstep state params params_of) ops2 (init state params params_of s0)) ->
+    p_params state params (fold_left (pstep state params params_of) ops1 (init state params params_of s0))
+    = p_params state params (fold_left (pstep state params params_of) ops2 (init state params params_of s0)).
+Proof. exact ParamsCache.replicas_hold_same_params. Qed.
+Print Assumptions replicas_hold_same_params.
+
+(* with the refresh before the commit the running node lags behind a restarted one (witness) *)
+Theorem lagging_params_cache_refuted :
+  exists (s0 s1 : N),
+    let params_of := fun s : N => 32768 + 1000 * s in
+    let running := fold_left (pstep_with N N params_of false) [PCommit N s1] (init N N params_of s0) in
+    let restarted := fold_left (pstep_with N N params_of false) [PCommit N s1; PRestart N] (init N N params_of s0) in
+    p_committed N N running = p_committed N N restarted /\ p_params N N running <> p_params N N restarted.
+Proof. exact ParamsCache.lagging_params_cache_refuted. Qed.
+Print Assumptions lagging_params_cache_refuted.
